@@ -638,6 +638,11 @@ func (c *cmafIngester) sendMediaSegment(ctx context.Context, wg *sync.WaitGroup,
 			return
 		}
 	}
+	if code != 0 {
+		// A statuscode_ pattern in the livesim URL hit this segment: nothing was written, so there is nothing to send.
+		c.log.Info("segment replaced by configured status code, not sent", "path", segPath, "code", code)
+		return
+	}
 	if c.useChunked {
 		<-writeMoreCh   // Capture final message
 		nrBytesCh <- -1 // Signal that we are done to Read (that reads and pushes to remote)
